@@ -3,6 +3,14 @@
 import json, os, re, glob
 ROOT = os.path.dirname(os.path.dirname(os.path.abspath(__file__)))
 D = {
+ "C01-1": ("C01", "create_node_to_mutate writes the explicit room_id into old_node before cloning it, so validate_entity_mutation never sees a room change: the right in the room a row leaves is not checked", "an update carrying an explicit room_id different from the row's room plus another field, by a caller whose rights differ between the two rooms"),
+ "C01-2": ("C01", "the up-front admin gate of validate_room_mutation becomes is_admin || is_user_admin and the final admin check runs on the room after the new admin entry was added: a group's user admin can make itself room admin", "caller is an enabled user admin but not a room admin, submitting a sys.Room mutation that adds an admin / right / user-admin entry"),
+ "C06-1": ("C06", "the node digest covers the parsed _json re-serialised instead of the stored text: every _json text parsing to the same value (whitespace, escapes, key order, DUPLICATE keys) shares one signature", "non-canonical JSON text supplied by a peer"),
+ "C06-2": ("C06", "PeerNodes::write partially updates a known sys.Peer row (mdate, _json, _signature) from a newer received row without touching verifying_key: a stored row that verifies for nobody is served", "a newer sys.Peer row carrying the id of a stored one, signed by another key"),
+ "C15-1": ("C15", "update_data_model assigns self.data_model before writer.write(..).await?: a version refused by the storage step is already the running model", "a run-time update that DataModel::update accepts but the writer refuses (index names differing only by case)"),
+ "C15-2": ("C15", "new fields of an update ordered by the TEXT of their parsed position: ids swapped when one update adds fields straddling 99/100", "an entity with >= 67 fields and one update adding two or more fields across the 99/100 boundary"),
+ "C16-1": ("C16", "fill_not_nullable no longer skips updates and the 'row already has a value' guard looks the field up by name while stored keys are short names: a partial update resets the other default-valued fields", "entity with default fields holding non-default values, then an update assigning other fields only (strictly sequential)"),
+ "C16-2": ("C16", "edges of the source row loaded once and the 'already referenced' set of the array-add path built without the label filter: adding to an array field a target already referenced through another field is silently dropped", "entity with two reference fields sharing a target"),
  "C02-1": ("C02", "on a room change, the author's right in the room the row LEAVES is evaluated at the date of the stored version (old_mdate) instead of the incoming row's date: an author whose rights in room A were revoked can still move rows out of A", "row stored in A at t1, author's right in A revoked at t2, version dated t3 > t2 with another room id arrives"),
  "C02-2": ("C02", "add_edges memoises the source-row lookup of consecutive edges by src only (the query also depends on src_entity): an edge naming the wrong source entity passes the room filter when it directly follows an edge of the same source whose lookup succeeded", "batch [honest edge, forged edge with same src, other src_entity]"),
  "C03-1": ("C03", "a received reference-deletion record deletes the reference by primary key (src,label,dest) instead of (src,src_entity,label,dest,cdate): a replayed old record deletes a reference that was set again later; members keep different references for ever", "set a reference, remove it, set it again, synchronise, then exchange that day once more"),
